@@ -539,10 +539,34 @@ fn unreadable_contents(root: &str, rep: &mut Report) {
             }
         }
     }
+    // the acting macro that takes data: bytes that are not text are data like any other - the postcondition (a file
+    // holding exactly them) is true afterwards, so it passes, on a new and on an existing file
+    fn write_binary<V: VirtualFileSystem>(v: &V, backend: &str, dir: &str, rep: &mut Report) {
+        let _ = v.mkdir_p(dir);
+        let path = format!("{}/blob", dir);
+        let payload: [u8; 5] = [0x00, 0xff, 0xfe, 0x80, 0x41];
+        for round in ["absent", "existing"] {
+            rep.eval();
+            let r = catch(|| {
+                assert_vfs_write_all!(v, &path, payload);
+            });
+            let holds = exec(v, &Op::ReadBytes(path.clone())) == Res::Bytes(payload.to_vec());
+            rep.key_str(&format!("assert_vfs_write_all!|{}|contents:binary-payload|{}|{}", backend, round, holds));
+            if holds != r.is_ok() {
+                rep.violation(
+                    &format!("macro:assert_vfs_write_all!({},binary-payload,{}):{}→{}", backend, round, if holds { "postcondition-holds+pass" } else { "postcondition-fails+panic" }, if r.is_ok() { "pass" } else { "panic" }),
+                    J::obj(vec![("backend", J::s(backend)), ("macro", J::s(format!("assert_vfs_write_all!(vfs, {:?}, {:?})", path, payload))), ("got", J::s(format!("{:?}", r)))]),
+                );
+            }
+        }
+    }
+    write_binary(&Memfs::new(), "memfs", "/ub", rep);
+    write_binary(&Vfs::memfs(), "vfs-memfs", "/ub", rep);
     run(&Memfs::new(), "memfs", "/u", rep);
     run(&Vfs::memfs(), "vfs-memfs", "/u", rep);
     wipe(root);
     run(&Stdfs::new(), "stdfs", &format!("{}/u", root), rep);
+    write_binary(&Stdfs::new(), "stdfs", &format!("{}/ub", root), rep);
 }
 
 fn capture_panic_checks(ctx: &Ctx, rep: &mut Report) {
